@@ -43,6 +43,10 @@ Second part (Model/C12Ext.lean):
   {"op":"graph_add_any","a":graph,"b":graph|"other"|{"hist":hist}}   -> as graph_add
   {"op":"h2g_el","mv":null|"double"|"pair"|"triple"|"notvar","mode":str,"fields":names,"scale":..,"is_hist":bool,
    "h":hist,"to_graph":bool}  -> {"e":name,"phase":"init"|"run"} | {"unchanged":true} | {"g":gstate,"rows":..,"hscale":..}
+  {"op":"chain","a":hist,"b":hist|null,"steps":[{"k":"scale_get","o":"a"|"b"|"c","rc":bool} | {"k":"scale_set","o":..,"s":q}
+      | {"k":"set_nevents","o":..,"n":q,"incl":bool} | {"k":"nevents","o":..,"incl":bool}
+      | {"k":"add","x":..,"y":..,"w":q,"rel":q,"abs":q}   (the sum becomes "c"), ..]}
+      -> {"obs":[{"r":q}|{"ok":true}|{"e":name},..],"final":{"a":hist|null,"b":hist|null,"c":hist|null}}
 Specification vocabulary (Model/C12Spec.lean), compared by the harness with Python reference computations:
   {"op":"spec_hist","h":hist,"ranges":ranges|null}
       -> {"wf":bool,"valid":bool,"nonempty_axes":bool,"index_prod":[[n..]..],"cells":[{"idx","in_range","edges","row"}..],
@@ -195,6 +199,64 @@ def parseIndex (j : Json) : Option IndexArg :=
   match nat? j with
   | some n => some (.num n)
   | none => ((arr? j).bind (fun a => a.toList.mapM nat?)).map IndexArg.tuple
+
+/-- the registers of a chain of operations: the histograms `a`, `b` and the last sum `c` -/
+structure ChainEnv where
+  a : Option Hist
+  b : Option Hist
+  c : Option Hist
+
+def ChainEnv.get (env : ChainEnv) (o : String) : Option Hist :=
+  if o == "a" then env.a else if o == "b" then env.b else env.c
+
+def ChainEnv.set (env : ChainEnv) (o : String) (h : Hist) : ChainEnv :=
+  if o == "a" then { env with a := some h } else if o == "b" then { env with b := some h } else { env with c := some h }
+
+/-- one step of a chain: the new registers and what was observed (return value / exception) -/
+def chainStep (env : ChainEnv) (st : Json) : ChainEnv × Json :=
+  let o := (str? (getD st "o")).getD "a"
+  match str? (getD st "k") with
+  | some "scale_get" =>
+    match env.get o, bool? (getD st "rc") with
+    | some h, some rc =>
+      match getScale h rc with
+      | .ok (h1, s) => (env.set o h1, Json.mkObj [("r", ratJson s)])
+      | .error er => (env, excObj er)
+    | _, _ => (env, err "bad scale_get step")
+  | some "scale_set" =>
+    match env.get o, rat? (getD st "s") with
+    | some h, some s =>
+      match setScale h s with
+      | .ok h1 => (env.set o h1, Json.mkObj [("ok", Json.bool true)])
+      | .error er => (env.set o (cacheScale h), excObj er)
+    | _, _ => (env, err "bad scale_set step")
+  | some "set_nevents" =>
+    match env.get o, rat? (getD st "n"), bool? (getD st "incl") with
+    | some h, some n, some incl =>
+      match setNevents h n incl with
+      | .ok h1 => (env.set o h1, Json.mkObj [("ok", Json.bool true)])
+      | .error er => (env, excObj er)
+    | _, _, _ => (env, err "bad set_nevents step")
+  | some "nevents" =>
+    match env.get o, bool? (getD st "incl") with
+    | some h, some incl => (env, Json.mkObj [("r", ratJson (getNevents h incl))])
+    | _, _ => (env, err "bad nevents step")
+  | some "add" =>
+    match env.get ((str? (getD st "x")).getD "a"), env.get ((str? (getD st "y")).getD "b"), rat? (getD st "w"),
+          rat? (getD st "rel"), rat? (getD st "abs") with
+    | some x, some y, some w, some rel, some ab =>
+      match add x y w { rel := rel, abs := ab } with
+      | .ok h1 => ({ env with c := some h1 }, Json.mkObj [("ok", Json.bool true)])
+      | .error er => (env, excObj er)
+    | _, _, _, _, _ => (env, err "bad add step")
+  | _ => (env, err "unknown step")
+
+def runChain (env : ChainEnv) : List Json → ChainEnv × List Json
+  | [] => (env, [])
+  | st :: rest =>
+    let (env1, ob) := chainStep env st
+    let (env2, obs) := runChain env1 rest
+    (env2, ob :: obs)
 
 def handle (j : Json) : Json :=
   match str? (getD j "op") with
@@ -437,6 +499,14 @@ def handle (j : Json) : Json :=
                   ("index_prod", ofList (ofList ofNat) (NArr.indexProd (h.nbins.map List.range))),
                   ("cells", ofList cellJ cs), ("valid_ranges", vr), ("selected", sel)]
     | _, _ => err "bad spec_hist args"
+  | some "chain" =>
+    let optHist (x : Json) : Option (Option Hist) := if x.isNull then some none else (parseHist x).map some
+    match optHist (getD j "a"), optHist (getD j "b"), arr? (getD j "steps") with
+    | some a, some b, some steps =>
+      let (env, obs) := runChain { a := a, b := b, c := none } steps.toList
+      Json.mkObj [("obs", Json.arr obs.toArray),
+                  ("final", Json.mkObj [("a", ofOpt histJson env.a), ("b", ofOpt histJson env.b), ("c", ofOpt histJson env.c)])]
+    | _, _, _ => err "bad chain args"
   | some "spec_coord" =>
     match parseEdges (getD j "edges"), ratLists? (getD j "values") with
     | some e, some vals =>
